@@ -135,3 +135,14 @@ func (db *Database) VerifTFIDFSearch(query string, limit int) (res []nlp.TFIDFRe
 
 // VerifSetEmbeddingIndex attaches an in-memory embedding index.
 func (db *Database) VerifSetEmbeddingIndex(idx *embedding.Index) { db.embeddingIndex = idx }
+
+// VerifFresh builds a new Database over a copy of the given commands exactly as a load does
+// (inverted index and TF-IDF searcher), without going through a file.
+func VerifFresh(cmds []Command) *Database {
+	cp := make([]Command, len(cmds))
+	copy(cp, cmds)
+	db := &Database{Commands: cp}
+	db.BuildUniversalIndex()
+	db.buildTFIDFSearcher()
+	return db
+}
